@@ -31,7 +31,7 @@ type c14Scenario struct {
 
 func init() {
 	Registry["C14"] = func() {
-		ev.Main("C14", "model_checking", 240*time.Second, 40*time.Minute, c14Body, func(c *ev.Ctx, raw json.RawMessage) {
+		ev.Main("C14", "model_checking", 200*time.Second, 40*time.Minute, c14Body, func(c *ev.Ctx, raw json.RawMessage) {
 			var sc c14Scenario
 			if err := json.Unmarshal(raw, &sc); err != nil {
 				c.HarnessError("%v", err)
